@@ -40,9 +40,16 @@ theorem getLastD_append_ne {α : Type} (l1 l2 : List α) (d : α) (h : l2 ≠ []
     (l1 ++ l2).getLastD d = l2.getLastD d := by
   cases l2 with
   | nil => exact absurd rfl h
-  | cons b t => simp [List.getLastD_eq_getLast?, List.getLast?_append]
+  | cons b t =>
+    cases hl : (b :: t).getLast? with
+    | none => exact absurd (List.getLast?_eq_none_iff.mp hl) (by simp)
+    | some x => simp [List.getLastD_eq_getLast?, List.getLast?_append, hl]
 
 theorem pts_append (a b : List (List Nat)) : pts (a ++ b) = pts a ++ pts b := List.map_append
+
+theorem pts_getD (l : List (List Nat)) (i : Nat) (hi : i < l.length) :
+    (pts l).getD i none = ptOfLimbs (l.getD i []) := by
+  simp [pts, List.getD_eq_getElem?_getD, hi]
 
 theorem preG_chain : chainOK (Secp.dbl Secp.G) (pts Tables.preGAll) = true := by
   unfold Tables.preGAll
